@@ -110,7 +110,10 @@ func (f *fixture) runGates(res *workerOut, addViol func(sig, what string, c case
 		{-1}, {1090, -90}, {-90, 1090}, {1000, -80}, {-80, 1000}, {0, -1},
 		{500, -90, 590}, {-90, 500, 590}, {500, 590, -90}, {1000, -1, 1},
 		// a zero output followed by positive ones (shapes of the "no cost" types)
-		{0}, {0, 500000000}, {0, 0, 1}, {0, 500000000, 7}}
+		{0}, {0, 500000000}, {0, 0, 1}, {0, 500000000, 7},
+		// int64 sums that wrap: to 0, to a small value, to a negative value
+		{1 << 62, 1 << 62, 1 << 62, 1 << 62}, {math.MaxInt64, math.MaxInt64, 2}, {math.MaxInt64, math.MaxInt64, 1, 1},
+		{math.MaxInt64, math.MaxInt64, 2, 900}, {1 << 62, 1 << 62}, {math.MaxInt64, 1}}
 	classes := map[string]int{}
 	// SideChainPow's acceptable state: the on-duty cross-chain arbiter is a harness key that
 	// signs the payload
